@@ -152,7 +152,7 @@ Lemma step_task_frames : forall s tid arg s',
     step_top s f rest arg = Some (s1, st, sp) /\
     st = dropped ++ norm st /\ forallb exhausted dropped = true /\
     Permutation (all_frames s') (norm st ++ others ++ concat sp) /\
-    s_nodes s' = s_nodes s1 /\ s_rrs s' = s_rrs s1 /\ s_slots s' = s_slots s1.
+    s_nodes s' = s_nodes s1 /\ s_rrs s' = s_rrs s1 /\ s_slots s' = s_slots s1 /\ s_joins s' = s_joins s1.
 Proof.
   intros s tid arg s' H. unfold step in H.
   destruct (find_task (s_tasks s) tid) as [[|f rest]|] eqn:F; try discriminate.
@@ -173,8 +173,9 @@ Proof.
       destruct (Nat.ltb n (length (s_nodes x)) && Nat.ltb to (length (s_nodes x)) && negb (Nat.eqb n to)); [|discriminate].
       destruct (g_add_out (s_nodes x) n to) as [g [[a b] c]]. inversion HH. reflexivity. }
     assert (A7 : forall x r stk b y st' sp', do_fail x r stk b = Some (y, st', sp') -> s_tasks y = s_tasks x).
-    { intros x r stk b y st' sp' HH. unfold do_fail in HH. destruct (unwind r stk) as [[cs below]|]; [|discriminate].
-      destruct b; inversion HH; reflexivity. }
+    { intros x r stk b y st' sp' HH. unfold do_fail in HH. destruct (unwind r stk) as [[[[cs ks] below] [jid|]]|]; [| |discriminate].
+      - inversion HH; reflexivity.
+      - destruct b; inversion HH; reflexivity. }
     assert (A8 : forall x n k y st' sp', inv_step x n k = Some (y, st', sp') -> s_tasks y = s_tasks x).
     { intros x n k y st' sp' HH. unfold inv_step in HH.
       destruct (Nat.ltb n (length (s_nodes x))); [|discriminate].
@@ -210,6 +211,103 @@ Qed.
 Lemma frames_spawn : forall s sp, all_frames (spawn s sp) = all_frames s ++ concat sp.
 Proof.
   intros. unfold all_frames, spawn. simpl. rewrite map_app, concat_app, frames_number_from. reflexivity.
+Qed.
+
+(** ** counting frames *)
+Fixpoint count (p : frame -> bool) (fr : list frame) : nat :=
+  match fr with
+  | [] => 0
+  | f :: t => (if p f then 1 else 0) + count p t
+  end.
+
+Lemma count_app : forall p a b, count p (a ++ b) = count p a + count p b.
+Proof. induction a as [|h t IH]; intros b; simpl; [reflexivity | rewrite IH; lia]. Qed.
+
+Lemma count_perm : forall p a b, Permutation a b -> count p a = count p b.
+Proof. intros p a b P. induction P; simpl; lia. Qed.
+
+Lemma count_zero_forall : forall p q d, (forall f, q f = true -> p f = false) -> forallb q d = true -> count p d = 0.
+Proof.
+  intros p q d Hp. induction d as [|h t IH]; simpl; intros H; [reflexivity|].
+  apply andb_true_iff in H. destruct H as [H1 H2]. rewrite (Hp _ H1), (IH H2). reflexivity.
+Qed.
+
+Lemma branch_tasks_count : forall p jid r c bs i,
+  (forall a b, p (FBranchBegin a b) = false) -> (forall a b d, p (FScript a b d) = false) -> (forall a, p (FBranchEnd a) = false) ->
+  count p (concat (branch_tasks jid r c bs i)) = 0.
+Proof.
+  intros p jid r c bs. induction bs as [|b t IH]; intros i P1 P2 P3; simpl; [reflexivity|].
+  rewrite P1, P2, P3, IH by assumption. reflexivity.
+Qed.
+
+Lemma branch_tasks_in : forall jid r c bs i t, In t (branch_tasks jid r c bs i) ->
+  exists idx b, In b bs /\ t = [FBranchBegin jid idx; FScript r c b; FBranchEnd jid].
+Proof.
+  intros jid r c bs. induction bs as [|b t IH]; intros i x Hx; simpl in Hx; [contradiction|].
+  destruct Hx as [<-|Hx]; [exists i, b; split; [left; reflexivity | reflexivity]|].
+  destruct (IH _ _ Hx) as [idx [b' [H1 H2]]]. exists idx, b'. split; [right; exact H1 | exact H2].
+Qed.
+
+(** ** the error return: what [unwind] pops *)
+Definition unw_kind (f : frame) : bool :=
+  match f with FScript _ _ _ | FCacheSet _ _ _ _ | FKeyUnlock _ _ => true | _ => false end.
+
+Definition unw_last (r : nat) (term : option nat) (f : frame) : Prop :=
+  match term with
+  | None => exists c, f = FRunEnd r c
+  | Some jid => f = FBranchEnd jid
+  end.
+
+Lemma unwind_split : forall r stk cs ks below term,
+  unwind r stk = Some (cs, ks, below, term) ->
+  exists dropped last, stk = dropped ++ last :: below /\ forallb unw_kind dropped = true /\ unw_last r term last /\
+    (forall c, In c cs -> (exists a k p, In (FCacheSet a k c p) dropped) \/ last = FRunEnd r c).
+Proof.
+  induction stk as [|h t IH]; simpl; intros cs ks below term H; [discriminate|].
+  destruct h; try discriminate.
+  - destruct (Nat.eqb r r0); [|discriminate]. destruct (IH _ _ _ _ H) as [d [l [E [F [L C]]]]].
+    exists (FScript r0 c p :: d), l. split; [simpl; rewrite E; reflexivity|]. split; [simpl; exact F|]. split; [exact L|].
+    intros c' Hc. destruct (C c' Hc) as [[a [k [q Q]]]|Q]; [left; exists a, k, q; right; exact Q | right; exact Q].
+  - destruct (Nat.eqb r r0); [|discriminate]. destruct (unwind r t) as [[[[cs' ks'] b'] t']|] eqn:U; [|discriminate].
+    inversion H; subst. destruct (IH _ _ _ _ eq_refl) as [d [l [E [F [L C]]]]].
+    exists (FCacheSet r0 key child parent :: d), l. split; [simpl; rewrite E; reflexivity|]. split; [simpl; exact F|]. split; [exact L|].
+    intros c' [<-|Hc]; [left; exists r0, key, parent; left; reflexivity|].
+    destruct (C c' Hc) as [[a [k [q Q]]]|Q]; [left; exists a, k, q; right; exact Q | right; exact Q].
+  - destruct (Nat.eqb r r0); [|discriminate]. destruct (unwind r t) as [[[[cs' ks'] b'] t']|] eqn:U; [|discriminate].
+    inversion H; subst. destruct (IH _ _ _ _ eq_refl) as [d [l [E [F [L C]]]]].
+    exists (FKeyUnlock r0 key :: d), l. split; [simpl; rewrite E; reflexivity|]. split; [simpl; exact F|]. split; [exact L|].
+    intros c' Hc. destruct (C c' Hc) as [[a [k [q Q]]]|Q]; [left; exists a, k, q; right; exact Q | right; exact Q].
+  - inversion H; subst. exists [], (FBranchEnd jid). split; [reflexivity|]. split; [reflexivity|]. split; [reflexivity|]. intros c [].
+  - destruct (Nat.eqb r r0) eqn:E; [|discriminate]. apply Nat.eqb_eq in E. subst r0. inversion H; subst.
+    exists [], (FRunEnd r c). split; [reflexivity|]. split; [reflexivity|]. split; [exists c; reflexivity|].
+    intros c' [<-|[]]. right. reflexivity.
+Qed.
+
+(** the state after the error return *)
+Lemma do_fail_spec : forall s r stk retry s1 st sp,
+  do_fail s r stk retry = Some (s1, st, sp) ->
+  exists cs ks below term y,
+    unwind r stk = Some (cs, ks, below, term) /\
+    s_nodes s1 = s_nodes s /\ s_slots s1 = s_slots s /\ s_rrs s1 = setl (s_rrs s) r y /\
+    r_mu y = r_mu (getr s r) /\ r_comp y = r_comp (getr s r) /\ r_stop y = r_stop (getr s r) /\
+    r_cancel y = r_cancel (getr s r) /\ r_prog y = r_prog (getr s r) /\ r_clock y = r_clock (getr s r) /\
+    r_out y = r_out (getr s r) /\ r_keys y = remove_keys ks (r_keys (getr s r)) /\
+    match term with
+    | None => st = FUnlock r :: below /\ s_joins s1 = s_joins s /\
+              ((retry = true /\ sp = map (fun c => [FRelEnter c]) cs ++ [[FRunWait r]] /\ r_cache y = [] /\ r_failed y = r_failed (getr s r)) \/
+               (retry = false /\ sp = map (fun c => [FRelEnter c]) cs /\ r_cache y = r_cache (getr s r) /\ r_failed y = true))
+    | Some jid => st = FBranchEnd jid :: below /\ sp = map (fun c => [FRelEnter c]) cs /\
+                  r_cache y = r_cache (getr s r) /\ r_failed y = r_failed (getr s r) /\
+                  s_joins s1 = set_join_failed (s_joins s) jid
+    end.
+Proof.
+  intros s r stk retry s1 st sp H. unfold do_fail in H.
+  destruct (unwind r stk) as [[[[cs ks] below] term]|] eqn:U; [|discriminate].
+  exists cs, ks, below, term.
+  destruct term as [jid|].
+  - inversion H; subst; clear H. eexists. split; [reflexivity|]. simpl. repeat split; reflexivity.
+  - destruct retry; inversion H; subst; clear H; eexists; (split; [reflexivity|]); simpl; repeat split; try reflexivity;
+      [left | right]; repeat split; reflexivity.
 Qed.
 
 (** reachability *)
